@@ -3,7 +3,7 @@
 
    States = trees grown one child at a time (the in-memory order is the insertion order, so sorted order and memory
    order differ in many states).  Attribute domains per new child:
-     composites  type in CompTypes, locator in {N, C, I(3 cells)}, own grid in Grids
+     composites  type in CompTypes, locator in {C (2 values), I(NCells cells)}, own grid in Grids
      components  type "K", locator additionally M (2 shapes), sort key in 2 ranks, material "HT9", temperatures
    armi's reactors keep the children of one parent homogeneous (all Components or none): AddChild respects that, because
    Component.__lt__ and ArmiObject.__lt__ are not defined across the two.                                                *)
@@ -30,11 +30,13 @@ Base(id, ty, cmp) == [ty |-> ty, nm |-> "n" \o ToString(id), sn |-> 10 + id, kid
 
 Cells == {<<<<1, 0, 0>>, <<0, 0, 0>>, <<0, 0, 1>>>>[k] : k \in 1..NCells}
 LocChoices(p, cmp) ==
-    {[lk |-> "N", loc |-> <<>>, lg |-> 0], [lk |-> "C", loc |-> <<<<"1.5", "0.0", "-2.25">>>>, lg |-> 0]}
+    \* (only the root, a Reactor, has no locator: every other armi object is born with CoordinateLocation(0,0,0))
+    {[lk |-> "C", loc |-> <<<<"1.5", "0.0", "-2.25">>>>, lg |-> 0], [lk |-> "C", loc |-> <<<<"0.0", "0.0", "0.0">>>>, lg |-> 0]}
     \cup (IF t[p].grid = NoGrid THEN {} ELSE
             {[lk |-> "I", loc |-> <<c>>, lg |-> p] : c \in Cells}
-            \cup {[lk |-> "C", loc |-> <<<<"0.0", "0.0", "0.0">>>>, lg |-> p]}          \* free coordinates attached to the parent's grid
-            \cup (IF cmp THEN {[lk |-> "M", loc |-> <<<<0, 0, 0>>, <<1, 0, 0>>>>, lg |-> p], [lk |-> "M", loc |-> <<<<1, 0, 0>>>>, lg |-> p]}
+            \* components only (as in armi's blocks): free coordinates attached to the parent's grid; multi-index locators
+            \cup (IF cmp THEN {[lk |-> "C", loc |-> <<<<"0.0", "0.0", "0.0">>>>, lg |-> p],
+                              [lk |-> "M", loc |-> <<<<0, 0, 0>>, <<1, 0, 0>>>>, lg |-> p], [lk |-> "M", loc |-> <<<<1, 0, 0>>>>, lg |-> p]}
                   ELSE {}))
 
 Children(p, id) ==
@@ -72,10 +74,15 @@ IndexBijection == Sortable(t) =>
         LET S == {i \in Ix(F.type) : F.type[i] = ty}
         IN /\ {F.indexInData[i] : i \in S} = 0..(Cardinality(S) - 1)
            /\ \A i, j \in S : i < j => F.indexInData[i] < F.indexInData[j]
-GridDedup     == Sortable(t) =>
-    /\ \A a, b \in Ix(F.grids) : F.grids[a].raw = F.grids[b].raw => a = b
-    /\ \A i \in Ix(F.type) : LET nd == Canon(t)[i] IN
-          IF nd.grid = NoGrid THEN F.gridIndex[i] = 0 ELSE F.grids[F.gridIndex[i]] = nd.grid
+GridDedupOf(f, c) ==
+    /\ \A a, b \in Ix(f.grids) : f.grids[a].raw = f.grids[b].raw => a = b
+    /\ \A i \in Ix(f.type) : IF c[i].grid = NoGrid THEN f.gridIndex[i] = 0 ELSE f.grids[f.gridIndex[i]] = c[i].grid
+GridDedup     == Sortable(t) => GridDedupOf(F, Canon(t))
+IndexBijectionOf(f) ==
+    \A ty \in {f.type[i] : i \in Ix(f.type)} :
+        LET S == {i \in Ix(f.type) : f.type[i] = ty}
+        IN /\ {f.indexInData[i] : i \in S} = 0..(Cardinality(S) - 1)
+           /\ \A i, j \in S : i < j => f.indexInData[i] < f.indexInData[j]
 AncestorsAreParents == Sortable(t) =>
     LET c  == Canon(t)
         pm == ParentMap(c)
@@ -83,10 +90,37 @@ AncestorsAreParents == Sortable(t) =>
 RowsAccounted == Sortable(t) =>
     Len(F.rows) = AddUp([i \in Ix(t) |-> IF t[i].lk = "M" THEN Len(t[i].loc) ELSE 1])
 
+\* the same theorems evaluated once per tree with shared intermediate values (quick tier: TLC does not share work between
+\* INVARIANT lines); the names of the failing theorems are printed before the invariant is reported violated
+AllTheorems ==
+    ~Sortable(t) \/
+    LET Fl == Flatten(t)
+        C  == Canon(t)
+        U  == Unflatten(Fl)
+        L  == Canon(U)
+        F2 == Flatten(L)
+        pm == ParentMap(C)
+        bad == {nm \in {"RoundTrip", "FileIsSorted", "ResaveSame", "CanonIdem", "ClauseWise", "FileConsistent", "AncestorsAreParents",
+                         "RowsAccounted", "IndexBijection", "GridDedup"} :
+                  ~CASE nm = "RoundTrip"      -> L = C
+                     [] nm = "FileIsSorted"   -> U = C
+                     [] nm = "ResaveSame"     -> FileObs(F2) = FileObs(Fl) /\ Canon(Unflatten(F2)) = L
+                     [] nm = "CanonIdem"      -> Canon(C) = C /\ FileObs(Flatten(C)) = FileObs(Fl)
+                     [] nm = "ClauseWise"     -> ObsEqual(C, L)
+                     [] nm = "FileConsistent" -> Consistent(Fl)
+                     [] nm = "IndexBijection" -> IndexBijectionOf(Fl)
+                     [] nm = "GridDedup"      -> GridDedupOf(Fl, C)
+                     [] nm = "AncestorsAreParents" ->
+                            Ancestors(Fl.serialNum, Fl.numChildren) = [i \in Ix(C) |-> IF pm[i] = 0 THEN 0 ELSE C[pm[i]].sn]
+                     [] OTHER                 -> Len(Fl.rows) = AddUp([i \in Ix(t) |-> IF t[i].lk = "M" THEN Len(t[i].loc) ELSE 1])}
+    IN bad = {} \/ (PrintT(<<"failing theorems", bad>>) /\ FALSE)
+
 (* ------------------------------------------------ emission ------------------------------------------------ *)
 View == t
-EmitCase == PrintT(ToJson([t |-> t, sortable |-> Sortable(t),
-                           file |-> IF Sortable(t) THEN FileObs(F) ELSE <<>>,
-                           loaded |-> IF Sortable(t) THEN LoadFile(F) ELSE <<>>,
-                           anc |-> IF Sortable(t) THEN Ancestors(F.serialNum, F.numChildren) ELSE <<>>]))
+EmitCase == LET Fl == Flatten(t)
+                ok == Sortable(t)
+            IN PrintT(ToJson([t |-> t, sortable |-> ok,
+                              file |-> IF ok THEN FileObs(Fl) ELSE <<>>,
+                              loaded |-> IF ok THEN LoadFile(Fl) ELSE <<>>,
+                              anc |-> IF ok THEN Ancestors(Fl.serialNum, Fl.numChildren) ELSE <<>>]))
 =====================================================================================================
